@@ -6,6 +6,7 @@ import (
 	"fmt"
 	"io"
 	"reflect"
+	"time"
 
 	"cuelabs.dev/go/oci/ociregistry"
 	"cuelabs.dev/go/oci/ociregistry/ociunify"
@@ -160,8 +161,16 @@ func c16(env *core.Env) {
 		}
 	}
 	u := ociunify.New(mkMember(0), mkMember(1), &ociunify.Options{ReadPolicy: ociunify.ReadConcurrent})
-	ctx, cancel := context.WithCancel(context.Background())
-	defer cancel()
+	// The caller's context lives on after the call (a long-lived request or server
+	// context): whatever the call derived from it has to be released by the call itself,
+	// not by the caller going away.
+	// One time in three it is a context type of the caller's own, for which the context
+	// package parks a goroutine per derived context until that context is cancelled.
+	base, cancel := context.WithCancel(context.Background())
+	var ctx context.Context = base
+	if c.Bool("caller-context-of-its-own-type", 1, 3) {
+		ctx = ownContext{base}
+	}
 	cancelled := false
 	var cancelSeq int64
 	if cancelAt >= 0 {
@@ -319,11 +328,22 @@ func c16(env *core.Env) {
 				env.Failf(class("reader-not-closed"), "the reader opened on member %d (%s) was never closed. %s", i, who, describe())
 			}
 			if l.ctx != nil && l.ctx.Err() == nil {
-				env.Failf(class("context-not-cancelled"), "the context given to member %d is still live after the call and its reader are finished. %s", i, describe())
+				env.Failf(class("context-not-cancelled"), "the context given to member %d is still live after the call and its reader are finished (the caller's context is still live: nothing but the call can release it). %s", i, describe())
 			}
 		}
+		// (the caller's context is never cancelled unless the plan says so: it is
+		// garbage with the run)
 	})
 }
+
+// ownContext is a context of a type the context package does not know: deriving a
+// cancellable context from it starts a goroutine that waits for either to end.
+type ownContext struct{ inner context.Context }
+
+func (c ownContext) Deadline() (time.Time, bool) { return c.inner.Deadline() }
+func (c ownContext) Done() <-chan struct{}       { return c.inner.Done() }
+func (c ownContext) Err() error                  { return c.inner.Err() }
+func (c ownContext) Value(k any) any             { return c.inner.Value(k) }
 
 // innerReader unwraps the reader returned by ociunify (it embeds the member's reader).
 func innerReader(br ociregistry.BlobReader) *gatedReader {
